@@ -542,16 +542,16 @@ def options(m, fam, rich):
             if rich and old[0] in ("g", "w"):
                 eds.append(["rep", k, a, 1])  # the replacement carries an extra label ("Fixed"), as the solvers do
     eds += [["unwrap"], ["rmid"], ["addreg", "e"], ["addreg", "p"], ["addreg", "c"], ["copy"]]
-    if fam == "B" and group_allowed(m):
+    if group_allowed(m):
         eds.append(["group"])
     return eds
 
 
 def group_allowed(m):
-    """group_one_qubit_gates is driven only where its two open findings (C12.findings.md #1, #2) cannot interfere:
-    a one-qubit op has been added before (m._ever_one) and no MeasurementZ is present.  Those two situations have their
-    own items group_one_qubit_gates.*"""
-    return getattr(m, "_ever_one", False) and not any(d[0] == "mz" for d in m.ops.values())
+    """group_one_qubit_gates is offered in every state (since /repo 94c3214 a measurement ends a run and a circuit
+    without one-qubit operations is left alone; before that commit the two situations were confined to the items
+    group_one_qubit_gates.*, see C12.findings.md)"""
+    return True
 
 
 def model_apply(m, ed):
@@ -640,7 +640,7 @@ def history_case(inp):
     "history.random_long",
     site=SITE,
     bound="seeded random histories (quick: 160 x 200 edits, thorough: 500 x 300 edits) over the rich alphabet on <= 3+3+2 "
-    "registers, families A (with MeasurementZ, no group) and B (with group, no MeasurementZ); WF + view after every edit",
+    "registers, families A (with MeasurementZ) and B (without); WF + view after every edit",
     clause="after any sequence of edits (long histories)",
 )
 def random_case(inp):
@@ -683,7 +683,7 @@ def random_case(inp):
             elif y < 0.4:
                 ed = ["rmid"]
             elif y < 0.6:
-                ed = ["group"] if fam == "B" and group_allowed(m) else ["copy"]
+                ed = ["group"] if group_allowed(m) else ["copy"]
             elif y < 0.75:
                 ed = ["copy"]
             elif y < 0.9:
